@@ -427,4 +427,66 @@ theorem hb_need_le (c : Counts) (a : Nat) :
   have h2 := need_le (hbTail c) (a + need (hbHead c) a) 4 (by omega) (hbTail_chain c)
   omega
 
+/-! ### the metric records `Outlines::outline` produces -/
+
+/-- as soon as any point, contour or simple glyph has been accounted for, `max_other_points` is
+non-zero (every simple glyph sets it to at least its point count + 4 phantom points) -/
+def AccInv (a : Acc) : Prop :=
+  a.maxOtherPoints = 0 → a.points = 0 ∧ a.contours = 0 ∧ a.maxSimplePoints = 0
+
+theorem outline_inv_both :
+    (∀ (g : Glyph) (acc : Acc) (cd rd : Nat), AccInv acc → ∀ acc', outlineRec g acc cd rd = some acc' → AccInv acc') ∧
+    (∀ (cs : List (Option Glyph)) (acc : Acc) (cd rd : Nat), AccInv acc → ∀ acc', outlineComps cs acc cd rd = some acc' → AccInv acc') := by
+  apply outlineRec.mutual_induct
+    (motive_1 := fun g acc cd rd => AccInv acc → ∀ acc', outlineRec g acc cd rd = some acc' → AccInv acc')
+    (motive_2 := fun cs acc cd rd => AccInv acc → ∀ acc', outlineComps cs acc cd rd = some acc' → AccInv acc')
+  · intro g acc cd rd hgt _ acc' h
+    unfold outlineRec at h; simp [hgt] at h
+  · intro acc cd rd hle np nc instr _ acc' h
+    unfold outlineRec at h; simp only [hle, if_false, Option.some.injEq] at h
+    subst h
+    intro h0; simp only [] at h0; omega
+  · intro acc cd rd hle comps instr count hnone _ _ acc' h
+    unfold outlineRec at h; simp only [hle, if_false] at h
+    rw [hnone] at h; simp at h
+  · intro acc cd rd hle comps instr count acc1 hsome ih hinv acc' h
+    unfold outlineRec at h; simp only [hle, if_false] at h
+    rw [hsome] at h
+    simp only [Option.some.injEq] at h
+    have h1 := ih hinv acc1 hsome
+    subst h
+    cases instr
+    · simpa [AccInv] using h1
+    · intro h0; simp only [if_true] at h0; omega
+  · intro acc cd rd hinv acc' h
+    unfold outlineComps at h; simp only [Option.some.injEq] at h; subst h; exact hinv
+  · intro rest acc cd rd ih hinv acc' h
+    unfold outlineComps at h; exact ih hinv acc' h
+  · intro g rest acc cd rd hnone _ _ acc' h
+    unfold outlineComps at h; rw [hnone] at h; simp at h
+  · intro g rest acc cd rd acc1 hsome ih1 ih2 hinv acc' h
+    unfold outlineComps at h; rw [hsome] at h
+    exact ih2 (ih1 hinv acc1 hsome) acc' h
+
+/-- every record `Outlines::outline` returns has `max_other_points ≥ 1`, or describes an outline
+with only the four phantom points (no contours, no simple glyph reached) -/
+theorem outlineCounts_inv (f : FontLimits) (g : Option Glyph) (c : Counts)
+    (h : outlineCounts f g = some c) :
+    1 ≤ c.maxOtherPoints ∨ (c.points = 4 ∧ c.contours = 0 ∧ c.maxSimplePoints = 0) := by
+  unfold outlineCounts at h
+  have hinv0 : AccInv {} := by intro _; exact ⟨rfl, rfl, rfl⟩
+  cases g with
+  | none =>
+    simp only [Option.some.injEq] at h; subst h; right; exact ⟨rfl, rfl, rfl⟩
+  | some g =>
+    simp only [] at h
+    cases hr : outlineRec g {} 0 0 with
+    | none => rw [hr] at h; simp at h
+    | some a =>
+      rw [hr] at h; simp only [Option.some.injEq] at h; subst h
+      have := outline_inv_both.1 g {} 0 0 hinv0 a hr
+      by_cases h0 : a.maxOtherPoints = 0
+      · right; have := this h0; simp only []; omega
+      · left; simp only []; omega
+
 end FontVerif.Carve
